@@ -329,7 +329,10 @@ class Gen:
             if self.interleaved and self.props[s]['bound']:
                 # writing observers exist meanwhile: one that assigns the destination would find it bound afterwards
                 rd = rd | set(self.wtargets)
-            d = self.pick(lambda p, _: p != s and p not in forbidden and p not in rd)
+            # the destination takes over the readers of the source (ranked above the source): it must not be ranked above them, or
+            # an observer could later be allowed to act on it from inside a notification that its own change causes (a cycle)
+            rs = self.props[s]['rank']
+            d = self.pick(lambda p, dd: p != s and p not in forbidden and p not in rd and dd['rank'] <= rs)
             if d is None:
                 return
             self.emit(f"pmoveassign {d} {s}")
